@@ -2,6 +2,7 @@
 From Coq Require Import Strings.String Strings.Byte.
 From Coq Require Import List NArith.
 From Goit Require Import Bytes Regex Ignore World Repo IgnoreFacts.
+From Goit Require Import Index Inv IndexFacts BranchFacts ExactFacts SnapshotFacts IgnoreCmdFacts.
 Import ListNotations.
 
 (* T1: whatever .goitignore contains, the walk of `add <dir>` / `add .` skips
@@ -42,9 +43,77 @@ Theorem C17_ext_entry : forall ext r p,
   (boundary_match r true p = true <-> has_ext ([x2e] ++ ext) p).
 Proof. exact ext_entry_has_ext. Qed.
 
+(* ---------- Part 2: the commands ---------- *)
+(* [goit_path q]: q has a component ".goit" followed by something (at any depth;
+   the rest without line break — see DESIGN.md, finding F46) *)
+
+(* No form of add — any argument list, any world with a canonical staging area,
+   any outcome — newly stages a path inside Goit's directory; and on a
+   consistent work tree it newly stages no path the ignore patterns exclude *)
+Theorem C17_add_never_stages_excluded : forall e args w w' o tr,
+  Canonical (idx_of w) -> step (ACmd e (CAdd args)) w = (w', o, tr) ->
+  (forall q, goit_path q -> staged w' q = staged w q \/ staged w' q = None) /\
+  (ex_wt_consistent w -> forall c, ctx_of w = Some c -> forall q,
+     staged w' q <> staged w q -> staged w' q <> None ->
+     ignored w (x_pats c) q = false /\ ign_match (x_pats c) q = false).
+Proof. exact add_step_never_stages_excluded. Qed.
+
+(* on every reachable repository no tracked path, no staged path and no path of
+   any stored commit's snapshot lies inside Goit's directory *)
+Theorem C17_nothing_inside_goit_is_ever_tracked : forall w,
+  Reachable w -> w_coll w = false -> SmallStore (w_objs w) ->
+  (forall p, tracked w p = true -> ~ goit_path p) /\
+  (forall p, In p (paths (idx_of w)) -> ~ goit_path p) /\
+  (forall cid es p, snapshot (w_objs w) cid = Some es -> In p (paths es) -> ~ goit_path p).
+Proof. exact reachable_tracks_no_goit_path. Qed.
+
+(* status never lists such paths: every line of every class names a path outside
+   Goit's directory, and untracked lines name paths that are not excluded *)
+Theorem C17_status_never_lists_excluded : forall w,
+  Reachable w -> w_coll w = false -> SmallStore (w_objs w) ->
+  forall e w' out tr, step (ACmd e CStatus) w = (w', OOk out, tr) ->
+  w' = w /\ tr = [] /\
+  exists c, ctx_of w = Some c /\
+    (forall p, In (str "untracked " ++ p) out ->
+       file w p <> None /\ tracked w p = false /\ ignored w (x_pats c) p = false /\ ~ goit_path p) /\
+    (forall p, In (str "modified " ++ p) out -> tracked w p = true /\ ~ goit_path p) /\
+    (forall p, In (str "deleted " ++ p) out -> tracked w p = true /\ ~ goit_path p) /\
+    (forall k p, In (dkind_tag k ++ p) out -> ~ goit_path p).
+Proof. exact status_step_never_lists_excluded. Qed.
+
+(* hence restore and reset (every mode, every argument list, every outcome)
+   never write or remove anything inside Goit's directory *)
+Theorem C17_goit_dir_never_overwritten : forall w,
+  Reachable w -> w_coll w = false -> SmallStore (w_objs w) ->
+  forall e cm,
+  (exists st args, cm = CRestore st args) \/ (exists s m h args, cm = CReset s m h args) ->
+  forall w' o tr, step (ACmd e cm) w = (w', o, tr) ->
+  Forall spares_goit tr /\ (forall q, goit_path q -> file w' q = file w q).
+Proof. exact goit_dir_never_overwritten. Qed.
+
+(* with no .goitignore nothing outside Goit's directory is hidden or skipped:
+   every such path is visible, and `add .` stages every such file *)
+Theorem C17_no_ignore_nothing_hidden : forall w c f,
+  ctx_of w = Some c -> am_get (w_files w) (str ".goitignore") = None ->
+  ~ In (str ".goit") (comps f) -> visible w (x_pats c) f = true /\ ignored w (x_pats c) f = false.
+Proof. exact no_ignore_nothing_hidden. Qed.
+
+Theorem C17_no_ignore_add_dot_stages_everything : forall c w,
+  x_pats c = [ign_builtin] -> Canonical (idx_of w) -> ex_wt_consistent w ->
+  exists tr, runs (cmd_add c [[x2e]]) w (Ok []) tr /\ Forall add_eff tr /\
+    forall q data, file w q = Some data -> q <> [] -> ~ In (str ".goit") (comps q) ->
+      staged (apply_effects tr w) q = Some (blob_id data).
+Proof. exact no_ignore_add_dot_all_staged. Qed.
+
 Print Assumptions C17_add_never_stages_goit.
 Print Assumptions C17_add_skips_ignored.
 Print Assumptions C17_builtin_only.
 Print Assumptions C17_no_ignore_all_visible.
 Print Assumptions C17_dir_entry.
 Print Assumptions C17_ext_entry.
+Print Assumptions C17_add_never_stages_excluded.
+Print Assumptions C17_nothing_inside_goit_is_ever_tracked.
+Print Assumptions C17_status_never_lists_excluded.
+Print Assumptions C17_goit_dir_never_overwritten.
+Print Assumptions C17_no_ignore_nothing_hidden.
+Print Assumptions C17_no_ignore_add_dot_stages_everything.
